@@ -172,7 +172,7 @@ theorem C09_model_local_write (w : World) (cur : Replica) (hn : IdsNodup cur)
 
 /-- **C09 (synchronised row of the model).** Writing a fetched row over the locally stored version (`old`, of the
     same entity) with the marks of `Defects.none` keeps the invariant and the uniqueness of row ids. -/
-theorem C09_model_synchronised_row (rights : List Bool) (r : Replica) (hn : IdsNodup r)
+theorem C09_model_synchronised_row (rights : Rights) (r : Replica) (hn : IdsNodup r)
     (h : WInv r.sigs noPending r.log) (n : Node) (old : Option Node) (ho : r.findId n.id = old)
     (hent : ∀ o, old = some o → o.ent = n.ent) :
     WInv (ingestNode Defects.none rights r n old).sigs noPending (ingestNode Defects.none rights r n old).log ∧
@@ -181,7 +181,7 @@ theorem C09_model_synchronised_row (rights : List Bool) (r : Replica) (hn : IdsN
 
 /-- **C09 (synchronised deletion records of the model).** Applying a batch of received deletion records with the
     marks of `Defects.none` keeps the invariant. -/
-theorem C09_model_synchronised_deletions (rights : List Bool) (r : Replica)
+theorem C09_model_synchronised_deletions (rights : Rights) (r : Replica)
     (h : WInv r.sigs noPending r.log) (ts : List NTomb) :
     WInv (applyNTombs Defects.none rights r ts).sigs noPending (applyNTombs Defects.none rights r ts).log :=
   applyNTombs_winv rfl rights h ts
@@ -201,11 +201,11 @@ theorem C09_model_marks_asImplemented :
       WInv (effectOf Defects.asImplemented w cur cur p op).cur.sigs noPending
         (markAll (effectOf Defects.asImplemented w cur cur p op).marks
           (effectOf Defects.asImplemented w cur cur p op).cur.log)) ∧
-    (∀ (rights : List Bool) (r : Replica), IdsNodup r → WInv r.sigs noPending r.log →
+    (∀ (rights : Rights) (r : Replica), IdsNodup r → WInv r.sigs noPending r.log →
       ∀ (n : Node) (old : Option Node), r.findId n.id = old → (∀ o, old = some o → o.ent = n.ent) →
       WInv (ingestNode Defects.asImplemented rights r n old).sigs noPending
         (ingestNode Defects.asImplemented rights r n old).log) ∧
-    (∀ (rights : List Bool) (r : Replica), WInv r.sigs noPending r.log → ∀ (ts : List NTomb),
+    (∀ (rights : Rights) (r : Replica), WInv r.sigs noPending r.log → ∀ (ts : List NTomb),
       WInv (applyNTombs Defects.asImplemented rights r ts).sigs noPending
         (applyNTombs Defects.asImplemented rights r ts).log) :=
   ⟨fun w _ hn h p op => effectOf_winv rfl w hn h p op,
